@@ -46,6 +46,7 @@ def directive_lines(text, lex=None):
         lex = C.run_lines("harness", "fn", ["lex " + C.hx(text.encode("latin1"))])[0]
     import bisect
     prev_kind = None
+    directive_lines.after_plain = set()
     for item in lex.split("|")[0].split(","):
         if not item:
             continue
@@ -58,6 +59,9 @@ def directive_lines(text, lex=None):
         li = bisect.bisect_right(starts, b) - 1
         if lines[li][: b - starts[li]].strip(" \t") == "" and li not in out:
             out.append(li)
+            if pk in ("0", "1", "2", "6", "7"):
+                # the lexeme before it is no body: a comment here is the scanner's own business, not the schema library's
+                directive_lines.after_plain.add(li)
     return lines, out
 
 
@@ -75,6 +79,13 @@ def transforms(rng, text, lex=None):
         for i in sorted(rng.sample(dl, max(1, len(dl) // 3)), reverse=True):
             ls[i:i] = [rng.choice(ins)]
         yield name, "\n".join(ls)
+    # the shortest comments: nothing but the sign(s), directly followed by the line end
+    plain = sorted(getattr(directive_lines, "after_plain", set()))
+    if plain:
+        ls = list(lines)
+        for i in sorted(rng.sample(plain, max(1, len(plain) // 2)), reverse=True):
+            ls[i:i] = [rng.choice(["#", "##", "  ##", "#\t", "\t#", "## x", "#x", "###x###", "### ###"])]
+        yield "barecomment", "\n".join(ls)
     # trailing whitespace after directive lines that have no body on the same line
     ls = list(lines)
     for i in dl:
